@@ -1,7 +1,7 @@
 (** Small executable helpers shared by the generated case files. *)
 From Coq Require Import ZArith List Bool.
 Import ListNotations.
-Open Scope Z_scope.
+Local Open Scope Z_scope.
 
 Fixpoint zlist_eqb (a b : list Z) : bool :=
   match a, b with
